@@ -373,9 +373,58 @@ def r14_6_7(ctx) -> None:
               "skid -> get_by_kid(skid); else pick_random_key + add_header('skid', skey.kid)", construct="_guess_sender_key")
 
 
+def r14_14(ctx) -> None:
+    """R14.14  "every key in a set has a kid", for sets of every size: KeySet.__init__ calls ensure_kid() on each element of the list it then
+    stores, under no condition (a set with a single key is looked up by kid like any other - the producing side always records one)."""
+    eng = ctx.eng
+    from .common import resolve_all
+    ks = eng.prog.cls("_keys:KeySet")
+    init = ks.methods.get("__init__")
+    ek = eng.prog.cls("rfc7517.models:BaseKey").methods.get("ensure_kid")
+    if init is None or ek is None:
+        raise AnalysisError("KeySet.__init__ / BaseKey.ensure_kid vanished")
+    cfg = cfg_of(init)
+    kp = init.pos_params[1]
+    calls = [s for s in eng.cg.calls_in(init) if ek in s.callees and isinstance(s.node, ast.Call)]
+    ok = False
+    why = "ensure_kid is not called"
+    for s in calls:
+        cn = cfg.node_of(s.node)
+        if cn is None:
+            continue
+        paths = cfg.guards_of(cn)
+        tests = [norm(t.ast) for p in paths for t, _o in p if t.kind == "test"]
+        lv_ = {norm(t.ast.target) for p in paths for t, _o in p if t.kind == "loop" and isinstance(t.ast, ast.For)}  # type: ignore[union-attr]
+        # a test of the element's own kid repeats what ensure_kid tests itself
+        tests = [x for x in tests if not any(x in (f"{v}.kid", f"not {v}.kid", f"{v}.kid is None", f"'kid' not in {v}", f"'kid' not in {v}.dict_value") for v in lv_)]
+        loops = {norm(t.ast.iter) for p in paths for t, _o in p if t.kind == "loop" and isinstance(t.ast, ast.For)}  # type: ignore[union-attr]
+        recv = s.node.func.value if isinstance(s.node.func, ast.Attribute) else None
+        loopvars = {norm(t.ast.target) for p in paths for t, _o in p if t.kind == "loop" and isinstance(t.ast, ast.For)}  # type: ignore[union-attr]
+        if tests:
+            why = f"the call is conditional on {sorted(set(tests))}"
+        elif loops != {kp}:
+            why = f"the loop runs over {sorted(loops)}, not over the `{kp}` given"
+        elif recv is None or norm(recv) not in loopvars:
+            why = "ensure_kid is not called on the loop element"
+        else:
+            ok = True
+    # every exit passes the loop
+    if ok:
+        loopnodes = [t for t in cfg.nodes if t.kind == "loop" and isinstance(t.ast, ast.For) and norm(t.ast.iter) == kp]
+        ok = bool(loopnodes) and cfg.must_pass(cfg.entry, cfg.exit, loopnodes)
+        if not ok:
+            why = "a path leaves the constructor without visiting the keys"
+    stored = [n for n in fn_nodes(init) if isinstance(n, ast.Assign) and isinstance(n.targets[0], ast.Attribute) and n.targets[0].attr == "keys"]
+    if ok and not (stored and all(resolve_all(eng, init, a.value) == [kp] for a in stored)):
+        ok, why = False, "the list stored is not the list whose keys were given a kid"
+    ctx.check(ok, "R14.14", init, init.node, init.short, f"not every key of a key set is given a kid on construction ({why})", f"for key in {kp}: key.ensure_kid()",
+              construct=f"ensure_kid for every key in KeySet.__init__: {why if not ok else 'ok'}")
+
+
 def run(ctx) -> None:
     from .common import forwarding_discipline
     ctx.guard(forwarding_discipline, "R14.12", ['key', 'obj', 'find_key', 'public_key', 'private_key'], 40)  # arguments are handed on under their own name (generic routing rule, rules/common.py)
+    ctx.guard(r14_14)
     ctx.guard(r14_1)
     ctx.guard(r14_2)
     ctx.guard(r14_10)
@@ -386,5 +435,8 @@ def run(ctx) -> None:
     # the recorded kid is part of what is signed: key selection precedes the header encoding and writes into the encoded dict
     from .c03 import r03_2
     ctx.guard(r03_2, "R14.8")
+    # "use the key whose kid equals the token's kid": the kid is looked up in the union of all header positions of the recipient
+    from .c04 import r04_4
+    ctx.guard_as("R14.13", r04_4)
     from .c13 import r13_4
     ctx.guard_as("R14.9", r13_4)  # "every key in a set has a kid" of its own: ensure_kid stores the thumbprint into the key's own dict only
